@@ -309,4 +309,70 @@ def solveBracket (c0 : List α) (stoich : List Int) : Except Err (α × α) :=
 
 end numeric
 
+/-! ### `ReactionSystem.per_substance_varied` — the grid of initial compositions behind `EqSystem.solve(init, varied)` / `roots`
+(chempy/reactionsystem.py:606-645).  Substances are indices `0 … ns-1`; `varied` is the user's dict in ITS insertion order:
+`(substance index, levels)`; an index `≥ ns` stands for a key that is not a substance. -/
+
+/-- `tuple.index(k)` (`none` = ValueError) -/
+def pyListIndex : List Nat → Nat → Option Nat
+  | [], _ => none
+  | a :: l, k => if a = k then some 0 else (pyListIndex l k).map (· + 1)
+
+/-- `varied_keys = tuple(k for k in self.substances if k in varied)` — substance order, NOT the user's order -/
+def variedKeys {β : Type} (ns : Nat) (varied : List (Nat × β)) : List Nat :=
+  (List.range ns).filter fun j => varied.any fun kv => kv.1 == j
+
+/-- `shape = tuple(len(varied[k]) for k in self.substances if k in varied)` -/
+def variedShape {β : Type} (ns : Nat) (varied : List (Nat × List β)) : List Nat :=
+  (variedKeys ns varied).map fun j => match varied.lookup j with
+    | some vals => vals.length
+    | none => 0
+
+/-- all multi-indices of an nd-array of the given shape, in C order -/
+def multiIdx : List Nat → List (List Nat)
+  | [] => [[]]
+  | n :: rest => (List.range n).flatMap fun i => (multiIdx rest).map (i :: ·)
+
+section grid
+variable {α : Type}
+
+/-- what the assignment loop for one `(k, vals)` of `varied` does to the row at grid point `idx`:
+    `varied_axis = varied_keys.index(k)`; `result[..., idx[axis] on that axis, ..., k] = vals[idx[axis]]` -/
+def gridStep (keys idx : List Nat) (row : List α) (kv : Nat × List α) : Except Err (List α) :=
+  match pyListIndex keys kv.1 with
+  | none => throw .valueError
+  | some a =>
+    match idx[a]? with
+    | none => throw .indexError
+    | some i =>
+      match kv.2[i]? with
+      | none => throw .indexError
+      | some v => pure (row.set kv.1 v)
+
+/-- the row of the grid at multi-index `idx`: the base composition overwritten by every varied substance in the user's order -/
+def gridPoint (keys idx : List Nat) : List α → List (Nat × List α) → Except Err (List α)
+  | row, [] => pure row
+  | row, kv :: rest => do
+    let row' ← gridStep keys idx row kv
+    gridPoint keys idx row' rest
+
+/-- a key of `varied` that is not a substance: `n_varied = len(varied)` then exceeds the number of axes, so the first assignment of a
+    known key raises IndexError (too many indices), and reaching the unknown key raises ValueError (`tuple.index`) -/
+def unknownKeyError (ns : Nat) : List (Nat × List α) → Err
+  | [] => .valueError
+  | kv :: rest => if kv.1 ≥ ns then .valueError else if kv.2.isEmpty then unknownKeyError ns rest else .indexError
+
+/-- `per_substance_varied(per_substance, varied)` → `(varied_keys, shape, rows of the grid in C order)` -/
+def perSubstanceVaried (ns : Nat) (base : List α) (varied : List (Nat × List α)) :
+    Except Err (List Nat × List Nat × List (List α)) :=
+  if base.length ≠ ns then throw .valueError            -- as_per_substance_array: "Incorrect size"
+  else if varied.any (fun kv => decide (kv.1 ≥ ns)) then throw (unknownKeyError ns varied)
+  else do
+    let keys := variedKeys ns varied
+    let shape := variedShape ns varied
+    let rows ← (multiIdx shape).mapM fun idx => gridPoint keys idx base varied
+    pure (keys, shape, rows)
+
+end grid
+
 end ChemModel.EqSolve
